@@ -1,5 +1,6 @@
 import KoordVerif.Model.C14
 import KoordVerif.Model.C14Entry
+import KoordVerif.Model.C14Proxy
 import KoordVerif.Proofs.C14Ext
 /-
 C14 — property theorems (see DESIGN.md §4 C14).  Only statements about the property live
@@ -809,5 +810,108 @@ example : podQuota stdConsts ⟨true, false, id⟩ [⟨500, 1000, 64⟩, ⟨100,
 example : webhookDump [some ⟨500, 1000, 64⟩, none, some ⟨100, 5, 64⟩] = .valid [(0, ⟨500, 1000, 64⟩), (2, ⟨100, 5, 64⟩)] := by decide
 example : ∀ m, getExtSpec .nullCtrs ≠ some (some m) := by intro m; simp [getExtSpec]
 example : ctrFromReconciler [some ⟨500, 1000, 64⟩, none] .absent 0 = some ⟨500, 1000, 64⟩ ∧ ctrFromNri .absent 0 = none := by decide
+
+/-! ### 12. runtime-proxy mode: the hook answer reaches the CRI request -/
+
+/-- the oracle's rule, field by field: a set answer (quota: ANY non-zero value, so -1 too; period / shares /
+    memory: positive) replaces what the executor held, an unset one keeps it; cpuset strings follow the answer. -/
+theorem proxy_merge_rule (a b : CriRes) :
+    (mergeHook a b).quota = (if b.quota ≠ 0 then b.quota else a.quota) ∧
+    (mergeHook a b).shares = (if b.shares > 0 then b.shares else a.shares) ∧
+    (mergeHook a b).mem = (if b.mem > 0 then b.mem else a.mem) ∧
+    (mergeHook a b).period = (if b.period > 0 then b.period else a.period) ∧
+    (mergeHook a b).cpus = b.cpus ∧ (mergeHook a b).mems = b.mems := by
+  simp [mergeHook]
+
+/-- "undeclared limit means unlimited" on the runtime-proxy path: whenever the executor holds resources and the hook
+    answers quota -1, the runtime is handed -1 -- at create and at ANY later update, whatever was checkpointed
+    before and whatever the kubelet's update request carries. -/
+theorem proxy_unlimited_quota_reaches_runtime (a req b : CriRes) (hb : b.quota = -1) :
+    (proxyCreate req (.res b)).2.out.quota = -1 ∧
+    (proxyUpdate (some (some a)) req (.res b)).2.out.quota = -1 := by
+  simp [proxyCreate, proxyUpdate, applyResp, mergeHook, hb]
+
+/-- more generally every non-zero quota answer is what the runtime gets, and it is what the checkpoint remembers. -/
+theorem proxy_quota_answer_wins (a req b : CriRes) (hb : b.quota ≠ 0) :
+    (proxyUpdate (some (some a)) req (.res b)).2.out.quota = b.quota ∧
+    (proxyUpdate (some (some a)) req (.res b)).1 = some (some (proxyUpdate (some (some a)) req (.res b)).2.out) := by
+  simp [proxyUpdate, applyResp, mergeHook, hb]
+
+/-- the two-step history of the finding class: a finite quota injected at create is remembered; an update whose
+    answer leaves the quota unset hands the runtime that finite quota again, an answer of -1 lifts it. -/
+theorem proxy_two_step_history (orig f req b : CriRes) (hf : f.quota > 0) (hreq : req.quota = 0) :
+    let ck := (proxyCreate orig (.res f)).1
+    (b.quota = 0 → (proxyUpdate ck req (.res b)).2.out.quota = f.quota) ∧
+    (b.quota = -1 → (proxyUpdate ck req (.res b)).2.out.quota = -1) := by
+  have hf' : f.quota ≠ 0 := by omega
+  simp [proxyCreate, proxyUpdate, applyResp, mergeHook, mergeUpd, hf', hreq]
+  exact ⟨fun h h' => absurd h h', fun h => by simp [h]⟩
+
+/-- the kubelet's own update request: a set value is what the hook is shown, an unset one shows the remembered value. -/
+theorem proxy_update_request_rule (a req : CriRes) (resp : HookResp) :
+    (proxyUpdate (some (some a)) req resp).2.hook = some (some (mergeUpd a req)) ∧
+    (mergeUpd a req).quota = (if req.quota ≠ 0 then req.quota else a.quota) ∧
+    (mergeUpd a req).shares = (if req.shares > 0 then req.shares else a.shares) ∧
+    (mergeUpd a req).mem = (if req.mem > 0 then req.mem else a.mem) := by
+  simp [proxyUpdate, mergeUpd]
+
+/-- no answer: the request passes as sent; an answer without resources: the runtime gets the executor's state. -/
+theorem proxy_no_answer (a req : CriRes) :
+    (proxyUpdate (some (some a)) req .noResp).2.out = req ∧
+    (proxyUpdate (some (some a)) req .noRes).2.out = mergeUpd a req ∧
+    (proxyCreate req .noResp).2.out = req ∧ (proxyCreate req .noRes).2.out = req := by
+  simp [proxyUpdate, proxyCreate, applyResp]
+
+/-- composition with the koordlet half: for a BE container with a spec the runtime is handed exactly the
+    conversion of the declared amounts for shares and quota (unlimited = -1 included), and the declared memory
+    limit; an undeclared memory limit (-1) leaves the memory field of the request as the hook saw it. -/
+theorem proxy_runtime_gets_conversion (cfg : Cfg) (hs : ScaleOK cfg.scale) (c : Ctr) (a req : CriRes) :
+    let seen := mergeUpd a req
+    let out := (proxyUpdate (some (some a)) req (.res (koordletAnswer seen (ctrEntry stdConsts cfg true (some c))))).2.out
+    out.shares = ctrShares stdConsts c ∧ out.quota = ctrQuota stdConsts cfg c ∧
+    out.mem = (if c.mem > 0 then c.mem else seen.mem) ∧
+    out.period = seen.period ∧ out.cpus = seen.cpus ∧ out.mems = seen.mems := by
+  have hsh : ctrShares stdConsts c > 0 := by
+    unfold ctrShares; rw [std_shares]; split <;> omega
+  have hq : ctrQuota stdConsts cfg c ≠ 0 := by
+    unfold ctrQuota
+    by_cases hc : cfg.cfs = true
+    · simp only [hc, Bool.not_true, Bool.false_eq_true, if_false]
+      unfold applyScale; rw [std_quota]
+      by_cases hl : c.lim > 0
+      · have hl' : ¬ c.lim ≤ 0 := by omega
+        simp only [hl, if_true, hl', if_false]
+        have hpos : 0 < max 1000 (c.lim * 100) := by omega
+        by_cases hr : cfg.ratioGt1 = true
+        · have := hs.pos _ hpos
+          simp [hr, hpos]; omega
+        · simp [hr]; omega
+      · simp [hl]
+    · simp [hc]
+  have hm : ctrMem c = if c.mem > 0 then c.mem else -1 := by
+    unfold ctrMem; by_cases h : c.mem > 0
+    · have : ¬ c.mem ≤ 0 := by omega
+      simp [h, this]
+    · simp [h]
+  simp only [proxyUpdate, applyResp, ctrEntry, ctrHook, koordletAnswer, Option.map, Option.getD, mergeHook]
+  simp only [Bool.not_true, Bool.false_eq_true, if_false]
+  refine ⟨by simp [hsh], by simp [hq], ?_, by simp, trivial, trivial⟩
+  rw [hm]; by_cases h : c.mem > 0 <;> simp [h]
+
+/-- the memory quirk of the code as written: an "unlimited" MEMORY answer over a finite remembered limit is NOT taken
+    over (only positive values are).  Tagged by harness `criproxy`, reported, not failed. -/
+theorem proxy_memory_unlimited_not_taken_counterexample :
+    ¬ ∀ a b : CriRes, b.mem = -1 → (mergeHook a b).mem = -1 := by
+  intro h
+  have := h ⟨100000, 0, 2, 1024, 0, 0⟩ ⟨0, 0, 0, -1, 0, 0⟩ rfl
+  revert this; decide
+
+/-- a container known only from fail-over has no resources: the answer does not reach the request. -/
+theorem proxy_failover_answer_not_applied (req b : CriRes) :
+    (proxyUpdate (some none) req (.res b)).2.out = req ∧ (proxyUpdate none req (.res b)).2.out = req := by
+  simp [proxyUpdate, applyResp]
+
+example : (proxyUpdate (proxyCreate ⟨100000, 0, 2, 0, 0, 0⟩ (.res ⟨100000, 50000, 512, 1 <<< 30, 0, 0⟩)).1 CriRes.zero
+    (.res ⟨100000, -1, 512, 1 <<< 30, 0, 0⟩)).2.out.quota = -1 := by decide
 
 end KoordVerif.C14
